@@ -83,7 +83,15 @@ def plan(ctx):
     # d = 6 (eager tables), d = 7, 8 (lazy tables)
     for d, n, ml in ((6, 10 if q else 100, 5), (7, 8 if q else 60, 4), (8, 5 if q else 30, 4)):
         kts = [P.random_key_tuple(rng, d, ml) for _ in range(2 * n)]
-        groups.append({'u': ucfg(sig=[rng.choice((1, -1, 0)) for _ in range(d)]),
+        sig = [rng.choice((1, -1, 0)) for _ in range(d)]
+        if len(set(sig)) == 1:
+            sig[rng.randrange(d)] = 1 if sig[0] != 1 else -1
+        # the same cases first run (unrecorded) on an algebra with the same (p, q, r) and another ORDER of the signature:
+        # tables shared between algebras of one process must not be keyed by (p, q, r) alone
+        other = sig[:]
+        while other == sig:
+            rng.shuffle(other)
+        groups.append({'u': ucfg(sig=sig), 'pre_u': ucfg(sig=other),
                        'cases': [('gp', [kts[2 * i], kts[2 * i + 1]], []) for i in range(n)]})
     return groups
 
